@@ -487,6 +487,18 @@ impl NodeRef {
                     data.attrs.borrow().iter().map(|attr| (&attr.name, &*attr.value)),
                 )?;
 
+                // A parser ignores a newline right after the start tag of these elements, so one
+                // more is needed if the content begins with a newline.
+                if matches!(&*data.name.local, "pre" | "textarea" | "listing") {
+                    let first_child = self.first_child();
+
+                    if let Some(NodeData::Text(text)) = first_child.as_ref().map(NodeRef::data) {
+                        if text.borrow().starts_with('\n') {
+                            serializer.write_text("\n")?;
+                        }
+                    }
+                }
+
                 for child in self.children() {
                     child.serialize(serializer)?;
                 }
